@@ -884,9 +884,19 @@ def eval_active(d):
     Ind = IND["con"] if (cons or d.get("confit")) else IND["min1"]
     rng = random.Random(d["seed"])
     obj = d["obj"]
-    if d["parent_fit"]:
+    # initial parent: a bare array (no fitness attribute), an evaluated individual, or an individual whose fitness
+    # object is present but not valid (unevaluated / infeasible: constraint flags set, no values)
+    pmode = d.get("parent_mode", "fit" if d["parent_fit"] else "array")
+    if pmode == "fit":
         parent = Ind(d["x0"])
         parent.fitness.values = single_objective(obj, parent)
+        parent._id = 0
+    elif pmode == "unevaluated":
+        parent = Ind(d["x0"])
+        parent._id = 0
+    elif pmode == "infeasible":
+        parent = Ind(d["x0"])
+        parent.fitness.constraint_violation = tuple([True] + [False] * (max(1, len(cons)) - 1))
         parent._id = 0
     else:
         parent = numpy.array(d["x0"], dtype=float)
@@ -900,7 +910,7 @@ def eval_active(d):
     expect.append(il(S.i_I_R))
     evaluated = {}
     best_w = None
-    if d["parent_fit"]:
+    if pmode == "fit":
         evaluated[0] = (list(parent), tuple(parent.fitness.wvalues))
         best_w = tuple(parent.fitness.wvalues)
     nid, orc = 1, None
@@ -990,10 +1000,10 @@ def eval_active(d):
             post = act_state(S)
             # ---------------- oracle ----------------
             anyvalid = any(f is not None for f in popfit)
-            if anyvalid or pre["pw"] is not None:
-                if post["pw"] is None:
+            if anyvalid or pre["pw"]:             # pre["pw"] is None / (): the parent carries no evaluated fitness yet
+                if not post["pw"]:
                     raise Fail("round %d: parent has no fitness although valid individuals were evaluated" % r)
-                if pre["pw"] is not None and not fit_ge(post["pw"], pre["pw"]):
+                if pre["pw"] and not fit_ge(post["pw"], pre["pw"]):
                     raise Fail("round %d: parent fitness got worse: %r -> %r" % (r, pre["pw"], post["pw"]))
                 if post["pw"] != best_w:
                     raise Fail("round %d: parent fitness %r is not the best fitness evaluated so far %r" % (r, post["pw"], best_w))
@@ -1001,13 +1011,14 @@ def eval_active(d):
                 if g != list(S.parent) or w != post["pw"]:
                     raise Fail("round %d: parent genome does not match the individual that obtained its fitness" % r)
             replaced = S.parent is not pre["parent"]
-            if replaced and not any(f is not None and f == post["pw"] and (pre["pw"] is None or fit_ge(f, pre["pw"]))
+            if replaced and not any(f is not None and f == post["pw"] and (not pre["pw"] or fit_ge(f, pre["pw"]))
                                     for f in popfit):
                 raise Fail("round %d: parent replaced by something that is not a valid offspring at least as good" % r)
             n_repl += replaced
             n_keep += (not replaced)
             if not (0.0 <= S.psucc <= 1.0) or not (S.sigma > 0 and math.isfinite(S.sigma)):
-                raise Fail("round %d: psucc=%r sigma=%r out of range" % (r, S.psucc, S.sigma))
+                raise Fail("round %d: psucc=%r sigma=%r out of range (%d valid / %d invalid offspring, parent fitness %r)"
+                           % (r, S.psucc, S.sigma, sum(f is not None for f in popfit), sum(f is None for f in popfit), pre["pw"]))
             cnd = numpy.linalg.cond(S.A)
             raised = any(res is None for (_m, res) in ex2.invs)
             if not (cnd < COND_LIMIT) and not raised:
@@ -1056,8 +1067,8 @@ def eval_active(d):
                 break
     except Fail as e:
         orc = str(e)
-    tag = "act/%s/d%d/l%d/c%d/%s%s%s" % (obj, dim, lam, len(cons), "int" if any(s > 0 for s in d["steps"]) else "cont",
-                                        "/neg" if n_neg else "", "/inf" if n_inf else "")
+    tag = "act/%s/d%d/l%d/c%d/%s/%s%s%s" % (obj, dim, lam, len(cons), "int" if any(s > 0 for s in d["steps"]) else "cont",
+                                           "parent-" + pmode, "/neg" if n_neg else "", "/inf" if n_inf else "")
     return Case(d, lines, expect, orc, tag=tag, nontrivial=(n_repl > 0 and n_keep > 0), tol=case_tol(cond_max))
 
 
@@ -1156,6 +1167,37 @@ def gen_structured(thorough, rng, mult, lmax):
         yield {"k": "mo", "dim": dim, "mu": mu, "lam": rng.choice([mu, rng.randint(1, lmax)]),
                "obj": rng.choice(["bisphere", "zdt"]), "x0": [rnd_vec(rng, dim, 0.0, 1.0) for _ in range(mu + rng.randint(1, 3))],
                "sigma": 0.5, "rounds": rng.randint(2, 15), "seed": rng.randrange(1 << 30)}
+
+
+def gen_invalid_parent(thorough, rng, mult, lmax):
+    """active strategy started from a parent whose fitness object exists but is not valid (infeasible or
+    unevaluated), with rounds that mix feasible/evaluated and infeasible/unevaluated offspring"""
+    for i in range((40 if thorough else 14) * mult):
+        dim = rng.randint(2, 5)
+        lam = rng.randint(2, lmax)
+        cpk = rng.choice([{}, {}, {"cp": 0.6}, {"cp": 0.9}])
+        # constrained: the parent sits inside the infeasible region, a fraction of the offspring is feasible
+        a = [0.0] * dim
+        a[0] = 1.0
+        x0 = [round(rng.uniform(-0.6, 0.0), 3)] + [round(rng.uniform(0.5, 1.5), 3) for _ in range(dim - 1)]
+        cons = [[a, 0.1]]
+        if rng.random() < 0.5:
+            a2 = [0.0] * dim
+            a2[1] = 1.0
+            cons.append([a2, 0.1])
+        yield {"k": "act", "dim": dim, "lam": lam, "obj": rng.choice(["sphere", "step"]), "x0": x0,
+               "sigma": rng.choice([0.3, 0.5, 1.0]), "steps": [0.0] * dim, "cons": cons, "parent_fit": False,
+               "parent_mode": "infeasible", "confit": True, "rounds": rng.randint(3, 12),
+               "seed": rng.randrange(1 << 30), "shuffle": rng.random() < 0.5, "kargs": dict(cpk)}
+        # plain Fitness: unevaluated parent, most offspring left unevaluated
+        yield {"k": "act", "dim": dim, "lam": lam, "obj": "sphere",
+               "x0": [round(rng.uniform(1.0, 3.0), 3) for _ in range(dim)], "sigma": 0.5, "steps": [0.0] * dim, "cons": [],
+               "parent_fit": False, "parent_mode": "unevaluated", "confit": False, "skip": rng.choice([0.5, 0.7, 0.85]),
+               "rounds": rng.randint(3, 12), "seed": rng.randrange(1 << 30), "shuffle": False, "kargs": dict(cpk)}
+        # constrained fitness class, unevaluated parent (no flags), constraints active
+        yield {"k": "act", "dim": dim, "lam": lam, "obj": "sphere", "x0": x0, "sigma": 0.5, "steps": [0.0] * dim,
+               "cons": cons, "parent_fit": False, "parent_mode": "unevaluated", "confit": True,
+               "rounds": rng.randint(3, 12), "seed": rng.randrange(1 << 30), "shuffle": False, "kargs": dict(cpk)}
 
 
 def gen_histories(thorough, rng, mult, dmax, lmax, mumax):
@@ -1287,6 +1329,8 @@ def generate(tier, rng, mult):
     for d in gen_structured(thorough, rng, mult, lmax):
         yield d
     for d in gen_actsing(thorough, rng, mult):
+        yield d
+    for d in gen_invalid_parent(thorough, rng, mult, lmax):
         yield d
     for d in gen_histories(thorough, rng, mult, dmax, lmax, mumax):
         yield d
